@@ -186,9 +186,9 @@ theorem evalEntry_deleted (m : M Prim) (start : Bytes) (v : Visit Attr) (g : GS)
     starting point — `start` followed by names — or was removed before.  Nothing outside the
     starting points is ever removed, and a link's target never is (its path is not below `start`). -/
 theorem C10_whole_walk (c : RefCfg) (m : M Prim) (start : Bytes) (root : Node Attr) (g : GS)
-    (hpost : c.depthFirst = true) (hH : ¬ HRootLink c root) :
+    (hpost : c.depthFirst = true) :
     ∀ x ∈ (processRoot c (evalEntry m start) root g).st.deleted, x ∈ g.deleted ∨ ∃ rp, x = pathOf start rp := by
-  rw [C02_refines_post c (evalEntry m start) hpost root hH g]
+  rw [processRoot_postAny c (evalEntry m start) hpost root g]
   simp only [resOf]
   let Q : GS → GS → Prop := fun a b => ∀ x ∈ b.deleted, x ∈ a.deleted ∨ ∃ rp, x = pathOf start rp
   have := refNode_preserves c (evalEntry m start) Q (fun s x hx => Or.inl hx)
